@@ -305,6 +305,10 @@ func (c01) RunCase(c *core.Ctx) {
 			for rep := 0; rep < 4; rep++ {
 				rec := &orderRecorder{}
 				b := spec.Build(n, rec.hooks(c.R))
+				if rep == 3 {
+					// "... or an earlier call": the recycled objects this call picks up are in states earlier calls leave behind
+					prefillDirty([]string{"all", "SchemaCtx.Exit", "SchemaCtx.CanCatch", "SchemaCtx.HasCaught"}[c.R.Intn(4)])
+				}
 				var o *run.Outcome
 				var prior, input any
 				if mode == ref.Parse {
